@@ -200,7 +200,12 @@ func runC15(c *Ctx) {
 	if u := c.unit("C15-H2", "node.(*NamespaceMgr).GetNamespaceNodeWithPrimaryKeySum"); u != nil {
 		// (pid and fullName, defined once by pure expressions, print as their definitions)
 		nd := u.Match(an.LocalStore("n"))
-		r.Check("C15-H2", u.Name+": the node is looked up under the partition's full name", "", len(nd) == 1 && nd[0].Tuple != nil && u.C.Term(nd[0].Tuple) == "recv.kvNodes[common.GetNsDesp(p0, (p2 % v.PartitionNum))]", "")
+		r.Check("C15-H2", u.Name+": the node is looked up under the partition's full name", "", len(nd) == 1 && nd[0].Tuple != nil && u.C.Term(nd[0].Tuple) == "recv.kvNodes[common.GetNsDesp(p0, (p2 % v.PartitionNum))]", func() string {
+			if len(nd) == 1 && nd[0].Tuple != nil {
+				return "looked up under " + u.C.Term(nd[0].Tuple)
+			}
+			return ""
+		}())
 		vd := u.Match(an.LocalStore("v"))
 		r.Check("C15-H2", u.Name+": the partition count is the namespace's own", "", len(vd) == 1 && vd[0].Tuple != nil && u.C.Term(vd[0].Tuple) == "recv.nsMetas[p0]", "")
 		r.Returns("C15-H2", u, []an.ReturnClass{
@@ -222,7 +227,7 @@ func runC15(c *Ctx) {
 		r.Check("C15-H2", sw.U.Name+": passes namespace, key and key hash through unchanged", sw.U.Pos(sw.S.Pos), ok, "")
 	}
 	if u := c.unit("C15-H2", "server.GetPKAndHashSum"); u != nil {
-		r.StoreValues("C15-H2", u, an.LocalStore("pkSum"), []string{"node.HashedKey(pk)"}, 1)
+		r.StoreValues("C15-H2", u, an.LocalStore("pkSum"), []string{"node.HashedKey(pk)"}, 0) // (the return classes below accept the call itself)
 		r.StoreValues("C15-H2", u, an.LocalStore("rawKey"), []string{"p1.Args[1]"}, 0)
 		pk := u.Match(an.LocalStore("pk"))
 		r.Check("C15-H2", u.Name+": the primary key is extracted from the command's key argument", "", len(pk) == 1 && pk[0].Tuple != nil && (u.C.Term(pk[0].Tuple) == "common.ExtractNamesapce(p1.Args[1])" || u.C.Term(pk[0].Tuple) == "common.ExtractNamesapce(rawKey)"), "")
